@@ -802,3 +802,165 @@ func c09RetryCase(t *testing.T, run *vk.Run, store, tid string, detail map[strin
 	}
 	resolvesTo("node-c", "after-second-attempt")
 }
+
+// ---------------------------------------------------------------- source node re-registers its cross-node address
+//
+// Node-b forwards tunnel T1 to source node-a (TargetReady observed at a's endpoint
+// OLD). Node-a then re-registers a different address NEW while OLD still accepts
+// connections (old process draining). The next waiting tunnel T2 on node-a, attached via
+// node-b, must be routed to node-a's CURRENT address: TargetReady(T2, node-b) at NEW,
+// nothing for T2 at OLD. GetNodeAddress must return NEW from every node.
+
+func TestVerifC09NodeAddressChange(t *testing.T) {
+	vk.Quiet()
+	run := vk.Start(t, "C09", "node-address-change")
+	defer run.Finish()
+	run.Rule("per case: store (memory | redis per node) x number of forwards before the address change (1-3) x old endpoint (still listening | closed); source tunnels wait on node-a, targets attach via node-b; " +
+		"after node-a re-registered its address the next tunnel must be forwarded to the current address; distinct = (store, forwards before, old endpoint state)")
+	n := run.Pick(24, 300)
+	for i := 0; i < n && run.Violations() < 8; i++ {
+		store := []string{"memory", "redis"}[i%2]
+		before := 1 + (i/2)%3
+		oldOpen := (i/6)%2 == 0
+		detail := map[string]any{"case": i, "store": store, "forwards_before_change": before, "old_endpoint_still_listening": oldOpen}
+		run.Case(fmt.Sprintf("%s|before=%d|old_open=%v", store, before, oldOpen), detail)
+		c09AddrChangeCase(t, run, store, before, oldOpen, i, detail)
+		run.Eval(1)
+		run.Distinct(fmt.Sprintf("%s|before=%d|old_open=%v", store, before, oldOpen))
+	}
+	var inconclusive int64
+	for _, k := range []string{"ac_world_setup_failed", "ac_setup_failed", "ac_watchdog"} {
+		inconclusive += run.Counter(k)
+	}
+	if inconclusive > 0 {
+		run.Count("inconclusive_cases", inconclusive)
+		run.Floor("all_cases_conclusive", 1)
+	}
+	for _, s := range []string{"memory", "redis"} {
+		run.Floor("forwarded_to_old_address_before_change|"+s, int64(n/3)) // window: forwarder has used the old address
+		run.Floor("forwarded_to_current_address_after_change|"+s, int64(n/3))
+	}
+	run.Floor("after_change_old_still_listening", int64(n/4))
+}
+
+func c09AddrChangeCase(t *testing.T, run *vk.Run, store string, before int, oldOpen bool, idx int, detail map[string]any) {
+	if !c09AwaitLifecycleEnd() {
+		run.Count("ac_watchdog", 1)
+		return
+	}
+	w, err := c09NewXWorld(t, store, 2)
+	if err != nil {
+		run.Count("ac_world_setup_failed", 1)
+		return
+	}
+	defer w.cleanup()
+	a, b := w.nodes[0], w.nodes[1]
+	fail := func(what string, err any) {
+		run.Count("ac_setup_failed", 1)
+		detail["setup_error"] = fmt.Sprintf("%s: %v", what, err)
+		run.Observe("last_ac_setup_error", detail)
+	}
+	epOld, err := c09NewEndpoint()
+	if err != nil {
+		fail("endpoint", err)
+		return
+	}
+	defer epOld.stop()
+	epNew, err := c09NewEndpoint()
+	if err != nil {
+		fail("endpoint", err)
+		return
+	}
+	defer epNew.stop()
+	if err := a.Routing.RegisterNodeAddress("node-a", epOld.addr); err != nil {
+		fail("register addr", err)
+		return
+	}
+	src, tgt := a.NewClient(""), a.NewClient("")
+	// one tunnel = own mapping + own id; source waits on a, target attaches via b
+	attach := func(k int) (tid string, aerr error, ok bool) {
+		m, err := a.CC.CreatePortMapping(&models.PortMapping{ListenClientID: src.ClientID, TargetClientID: tgt.ClientID, Protocol: models.ProtocolTCP,
+			SourcePort: 19000 + k, TargetHost: "10.9.8.7", TargetPort: 443, SecretKey: fmt.Sprintf("mk-ac-%d-%d", idx, k), Status: models.MappingStatusActive})
+		if err != nil || m == nil {
+			fail("mapping", err)
+			return "", nil, false
+		}
+		tid = fmt.Sprintf("tcp-tunnel-%d-%d", 1700000000000000000+int64(idx)*100+int64(k), 19000+k)
+		sc := a.MustConnect("")
+		if lok, err := sc.Login(src.ClientID, src.Secret, "tunnel"); !lok {
+			fail("source login", err)
+			return "", nil, false
+		}
+		if ack, oerr := c09OpenTunnel(sc, m.ID, tid, m.SecretKey); ack == nil || !ack.Success || a.SM.GetTunnelBridgeByMappingID(m.ID, 0) == nil {
+			fail("source open", oerr)
+			return "", nil, false
+		}
+		if st, lerr := b.Routing.LookupWaitingTunnel(context.Background(), tid); lerr != nil || st == nil || st.SourceNodeID != "node-a" {
+			run.Violation("C09:addr|lost-while-waiting|store="+store, map[string]any{"case": detail, "tunnel": tid, "error": fmt.Sprint(lerr)})
+			return "", nil, false
+		}
+		tc := b.MustConnect("")
+		if lok, err := tc.Login(tgt.ClientID, tgt.Secret, "tunnel"); !lok {
+			fail("target login", err)
+			return "", nil, false
+		}
+		_, aerr = c09OpenTunnel(tc, m.ID, tid, m.SecretKey)
+		return tid, aerr, true
+	}
+	for k := 0; k < before; k++ {
+		tid, aerr, ok := attach(k)
+		if !ok {
+			return
+		}
+		fr := epOld.await()
+		if !coreerrors.IsCode(aerr, coreerrors.CodeTunnelModeSwitch) || fr == nil || fr.err != nil || fr.tunnelID != tid || fr.fromNode != "node-b" {
+			fail("forward before the address change", fmt.Sprintf("err=%v frame=%+v", aerr, fr))
+			return
+		}
+	}
+	run.Count("forwarded_to_old_address_before_change|"+store, 1)
+	// node-a re-registers its address (restart on another address / id re-allocated)
+	if !oldOpen {
+		epOld.stop()
+	}
+	if err := a.Routing.RegisterNodeAddress("node-a", epNew.addr); err != nil {
+		fail("re-register addr", err)
+		return
+	}
+	for _, nd := range w.nodes {
+		if got, err := nd.Routing.GetNodeAddress("node-a"); err != nil || got != epNew.addr {
+			run.Violation("C09:addr|stale-node-address-in-routing-table|store="+store, map[string]any{"case": detail, "from": nd.NodeID, "got": got, "error": fmt.Sprint(err), "want": epNew.addr})
+			return
+		}
+	}
+	tid, aerr, ok := attach(before)
+	if !ok {
+		return
+	}
+	var atNew, atOld *c09Ready
+	if coreerrors.IsCode(aerr, coreerrors.CodeTunnelModeSwitch) {
+		// b says it forwarded: the frame is at one of the two endpoints
+		select {
+		case fr := <-epNew.frames:
+			atNew = &fr
+		case fr := <-epOld.frames:
+			atOld = &fr
+		case <-time.After(5 * time.Second):
+			run.Count("ac_watchdog", 1)
+			return
+		}
+	}
+	if oldOpen {
+		run.Count("after_change_old_still_listening", 1)
+	}
+	switch {
+	case atNew != nil && atNew.err == nil && atNew.tunnelID == tid && atNew.fromNode == "node-b":
+		run.Count("forwarded_to_current_address_after_change|"+store, 1)
+	case atOld != nil:
+		run.Violation("C09:addr|routed-to-stale-node-address|store="+store, map[string]any{"case": detail, "tunnel": tid, "frame_at_old_address": fmt.Sprintf("%+v", *atOld),
+			"old": epOld.addr, "current": epNew.addr, "note": "node-a re-registered its address before this tunnel was attached"})
+	default:
+		run.Violation("C09:addr|not-routed-to-current-node-address|store="+store+fmt.Sprintf("|old_listening=%v", oldOpen), map[string]any{"case": detail, "tunnel": tid,
+			"forwarder_answer": fmt.Sprint(aerr), "frame_at_new": fmt.Sprintf("%+v", atNew), "old": epOld.addr, "current": epNew.addr})
+	}
+}
